@@ -237,6 +237,10 @@ func genDetCase(c *core.Ctx, i int) detCase {
 			"layouts/l.tw": "<@reserve(\"ok\")>",
 			"page.tw":      "@use(\"~l\")\n@insert(\"ok\", 1)\n" + strings.Join(inserts, ""),
 		}
+		if r.Intn(3) == 0 {
+			// a layout without any reserve: every insert of the page is undefined
+			files["layouts/l.tw"] = "<bare layout>"
+		}
 		return treeDetCase(files, "page")
 	case 5: // 2..3 slots passed twice, several undeclared slots
 		names := []string{"zeta", "alpha", "Mid"}
